@@ -438,6 +438,10 @@ impl<'a> TermWriter<'a> {
                     continue;
                 }
                 &TermRef::Clause(_, _, name, subterms) => {
+                    if subterms.len() > MAX_ARITY {
+                        return Err(CompilationError::ExceededMaxArity);
+                    }
+
                     self.queue.push_back((subterms.len(), h + 1));
                     let named = atom_as_cell!(name, subterms.len());
 
